@@ -9,8 +9,15 @@
   Reference notions: `wiresEq` (same registers, same executed operations on every quantum register) and `renEq`
   (the same up to a renaming of registers within each type).  That equal wire sequences compile to equal states is the
   commutation fact of C13/C01, evaluated here by the direct oracle of the harness (all measurement branches).
+
+  §3 is about the isomorphism comparison *as it stands in /repo* (refuted, finding D22′); §4 is about the comparison after
+  the repair handoff/repairs/d22/patch.diff (`circuitIsIsomorphic2`: every edge carries the roles of its register at both
+  ends) — for it the full statement is proved (`iso_sound`).  The harness probes which of the two the implementation under
+  test is and compares it with the corresponding model functions.
 -/
 import GraphiqModel.Proofs.Compare
+import GraphiqModel.Proofs.CompareRepairNorm
+import GraphiqModel.Proofs.CompareRepairStab
 namespace Graphiq.C15
 open Graphiq Graphiq.Export Graphiq.Compare
 
@@ -164,6 +171,145 @@ theorem iso_symmetric (g1 g2 : MG) (f : List (Nd × Nd)) (h : isoCheck g1 g2 f =
 theorem iso_answer_is_checked (g1 g2 : MG) (h : isoGraphs g1 g2 = true) :
     ∃ f, isoCheck g1.addControlTarget g2.addControlTarget f = true := isoGraphs_witness g1 g2 h
 
+
+/-! ## 4. The repaired isomorphism method (handoff/repairs/d22): soundness proved
+
+  `circuitIsIsomorphic2` models `circuit_is_isomorphic` after the repair: `_create_edge_control_target_attr` also knows
+  the roles at classically controlled operations and the role `'m'` of a written classical register, and
+  `add_control_target_to_dag` gives every edge the pair (role at its tail, role at its head); `node_match`, `edge_match`
+  and `networkx.is_isomorphic` (specified by `isoCheck2`, never trusted as a search) are unchanged.  Lemmas in
+  Proofs/CompareRepair*.lean. -/
+
+/-- the quantifier of §4: every operation acts on registers of the circuit and on pairwise different ones (the control
+    of a two-qubit operation is not its target) -/
+def WellFormed (c : Circuit) : Prop := ∀ o ∈ c.ops, InRange c o ∧ (opWires o).Nodup
+
+instance (c : Circuit) : Decidable (WellFormed c) := by unfold WellFormed; infer_instance
+
+theorem wellFormed_opOK (c : Circuit) (h : WellFormed c) : ∀ o ∈ c.ops, OpOK (wiresN c.ne c.np c.nc) o :=
+  fun o ho => (opOK_iff c o).2 (h o ho)
+
+/-- the DAG `CircuitDAG.add` builds is a family of register paths — for every register the edges with its key form one
+    path from its input node through operation nodes to its output node — and the operations met along the path of
+    register `w` are the operations of the circuit that touch `w`, in the order they were added -/
+theorem dag_is_a_family_of_register_paths (c : Circuit) (h : WellFormed c) :
+    ∃ g, MG.build c = .ok g ∧ BuildInv (wiresN c.ne c.np c.nc) g c.ops :=
+  let ⟨g, hb, hi, _⟩ := build_rep c (wellFormed_opOK c h)
+  ⟨g, hb, hi⟩
+
+/-- on such a DAG the walk of the repaired `add_control_target_to_dag` (one pass per register, remembering the role at
+    the operation just left) labels **every** edge with (role of its register at its tail, role at its head) -/
+theorem repaired_walk_labels_every_edge (g : MG) (W : List Wire) (body : Wire → List Nd) (r : Rep0 g W body) :
+    g.addControlTarget2 = g.labelled ∧ Rep g.addControlTarget2 W body :=
+  ⟨addControlTarget2_eq g W body r, r.addControlTarget2⟩
+
+/-- different registers of one operation never have the same role (what makes the pair of roles identify the register) -/
+theorem roles_separate_registers (o : Op) (hn : (opWires o).Nodup) (w w' : Wire) (hw : w ∈ opWires o) (hw' : w' ∈ opWires o)
+    (h : role (some (.gate o)) w = role (some (.gate o)) w') : w = w' := role_inj o hn w w' hw hw' h
+
+/-- **graph level**: a node bijection that passes the repaired check between two labelled circuit DAGs maps the path of
+    every register `w` of the first onto the path of one register of the second — of the same type, input node to input
+    node, output node to output node, the operation nodes in order — and at every operation node the image register
+    plays the role `w` plays.  (This is the statement `iso_sound_partial` needs `KeyRespecting` for; with both ends of
+    every edge labelled it is a theorem.) -/
+theorem repaired_check_follows_every_register (g1 g2 : MG) (W1 W2 : List Wire) (B1 B2 : Wire → List Nd)
+    (r1 : Rep g1 W1 B1) (r2 : Rep g2 W2 B2) (f : List (Nd × Nd)) (h : isoCheck2 g1 g2 f = true) (w : Wire) (hw : w ∈ W1) :
+    wireMap (mapFn f) w ∈ W2 ∧ (wireMap (mapFn f) w).t = w.t ∧
+    mapFn f (.inp w) = .inp (wireMap (mapFn f) w) ∧ mapFn f (.out w) = .out (wireMap (mapFn f) w) ∧
+    B2 (wireMap (mapFn f) w) = (B1 w).map (mapFn f) ∧
+    ∀ n ∈ B1 w, role (g2.opOf (mapFn f n)) (wireMap (mapFn f) w) = role (g1.opOf n) w :=
+  iso2_wires g1 g2 W1 W2 B1 B2 r1 r2 (mapFn f) (isoCheck2_facts g1 g2 f h).2 w hw
+
+/-- **soundness of the repaired `circuit_is_isomorphic`** (the full statement of properties.jsonl for the repaired
+    function): if it reports two well-formed circuits isomorphic, there is a renaming `π` of the registers — a bijection
+    of the registers that preserves the register type (emitter / photon / classical), the register counts being equal —
+    such that on every register `w` the operations of the second circuit on `π w` are exactly the renamed operations of
+    the first circuit on `w`, in the same order, and both circuits have the same number of operations -/
+theorem iso_sound (c1 c2 : Circuit) (h1 : WellFormed c1) (h2 : WellFormed c2) (h : circuitIsIsomorphic2 c1 c2 = .ok true) :
+    ∃ π, RenamedBy π c1 c2 :=
+  iso2_sound c1 c2 (wellFormed_opOK c1 h1) (wellFormed_opOK c2 h2) h
+
+/-- … hence the renamed first circuit and the second differ only by exchanges of neighbouring operations acting on
+    disjoint quantum registers -/
+theorem iso_sound_up_to_commuting_exchanges (c1 c2 : Circuit) (h1 : WellFormed c1) (h2 : WellFormed c2)
+    (h : circuitIsIsomorphic2 c1 c2 = .ok true) :
+    ∃ π, RenamedBy π c1 c2 ∧ SwapEquiv (c1.ops.map (renOp π)) c2.ops := by
+  obtain ⟨π, hπ⟩ := iso_sound c1 c2 h1 h2 h
+  exact ⟨π, hπ, hπ.swapEquiv (wellFormed_opOK c1 h1) (wellFormed_opOK c2 h2)⟩
+
+/-- … hence **the same compiled state up to the renaming**, in every semantics `app` of single operations in which
+    operations on disjoint quantum registers commute (for the verified stabilizer semantics that commutation is
+    `C13.stabilizer_ops_on_disjoint_registers_commute`): running the renamed first circuit and running the second circuit
+    from any state give the same state -/
+theorem iso_sound_same_compiled_state {σ : Type} (app : Op → σ → σ)
+    (hcomm : ∀ a b, disjointOps a b = true → ∀ s, app b (app a s) = app a (app b s))
+    (c1 c2 : Circuit) (h1 : WellFormed c1) (h2 : WellFormed c2) (h : circuitIsIsomorphic2 c1 c2 = .ok true) :
+    ∃ π, RenamedBy π c1 c2 ∧
+      ∀ s, (c1.ops.map (renOp π)).foldl (fun s o => app o s) s = c2.ops.foldl (fun s o => app o s) s := by
+  obtain ⟨π, hπ, hs⟩ := iso_sound_up_to_commuting_exchanges c1 c2 h1 h2 h
+  exact ⟨π, hπ, fun s => hs.same_state app hcomm s⟩
+
+/-- kernel-checked: the repaired comparison tells every witness pair of §3 apart (also after normalisation, as the
+    filters call it), and `remove_redundant_circuits` with it keeps both circuits of the smallest pair -/
+theorem repaired_matcher_rejects_the_witnesses :
+    circuitIsIsomorphic2 witA witB = .ok false ∧ isoNormalised2 witA witB = .ok false ∧
+    circuitIsIsomorphic2 d22A d22B = .ok false ∧ circuitIsIsomorphic2 tailA tailB = .ok false ∧
+    removeRedundant2 [witA, witB] = [witA, witB] := by
+  decide +kernel
+
+/-- a positive answer of the repaired model always exhibits a map that passes the full check (the search is never trusted) -/
+theorem iso2_answer_is_checked (g1 g2 : MG) (h : isoGraphs2 g1 g2 = true) :
+    ∃ f, isoCheck2 g1.addControlTarget2 g2.addControlTarget2 f = true := isoGraphs2_witness g1 g2 h
+
+/-- the DAG after `unwrap_nodes` and `remove_identity` (the copy `remove_redundant_circuits` compares) is again a family of
+    register paths, and the operations along the path of register `w` are the *executed* operations (`flat`: wrappers
+    expanded in application order, identities dropped) that touch `w` -/
+theorem normalised_dag_carries_the_flattened_circuit (c : Circuit) (h : WellFormed c) :
+    ∃ g, MG.build c = .ok g ∧ GraphInv (wiresN c.ne c.np c.nc) g.normalise (fun w => (flat c.ops).filter (touches w)) :=
+  let ⟨g, hb, hi, _⟩ := build_rep c (wellFormed_opOK c h)
+  ⟨g, hb, normalise_graphInv _ g c.ops hi⟩
+
+/-- **soundness of the repaired comparison as the filters call it** (copy, `unwrap_nodes`, `remove_identity`,
+    `circuit_is_isomorphic`): reported isomorphic ⇒ the executed operations of the two circuits are renamings of each
+    other register by register, hence differ (after renaming) only by exchanges of neighbouring operations on disjoint
+    registers -/
+theorem iso_normalised_sound (c1 c2 : Circuit) (h1 : WellFormed c1) (h2 : WellFormed c2)
+    (h : isoNormalised2 c1 c2 = .ok true) :
+    ∃ π, RenamedBy π (flatC c1) (flatC c2) ∧ SwapEquiv ((flat c1.ops).map (renOp π)) (flat c2.ops) := by
+  obtain ⟨π, hπ⟩ := isoNorm2_sound c1 c2 (wellFormed_opOK c1 h1) (wellFormed_opOK c2 h2) h
+  exact ⟨π, hπ, hπ.swapEquiv (flat_opOK _ _ (wellFormed_opOK c1 h1)) (flat_opOK _ _ (wellFormed_opOK c2 h2))⟩
+
+/-- **reported isomorphic ⇒ the same compiled stabilizer state up to the renaming** — in C13's verified stabilizer
+    semantics (`Commute.appG`: stabilizer group of a valid tableau on `ne + np` qubits plus the unread measurement outcomes;
+    gates by C07's `specGate`, measurements by `specMeasure`; that operations on disjoint registers commute there is
+    `C13.stabilizer_ops_on_disjoint_registers_commute`): for either form of the repaired comparison (as `compare` calls it,
+    or as the filters call it after normalisation), running the renamed executed operations of the first circuit and
+    running the executed operations of the second from any state give the same state, for every assignment of outcomes
+    to the measuring operations.  `toSOp` (Proofs/CompareRepairStab.lean) is the translation of an executed operation of
+    this model into an operation of C13's compile sequence: same class, same registers. -/
+theorem iso_sound_same_stabilizer_state (c1 c2 : Circuit) (h1 : WellFormed c1) (h2 : WellFormed c2)
+    (h : circuitIsIsomorphic2 c1 c2 = .ok true ∨ isoNormalised2 c1 c2 = .ok true) :
+    ∃ π, RenamedBy π (flatC c1) (flatC c2) ∧ ∀ (ne np : Nat) (s : Commute.GSt ne np),
+      Wire.runSeq (Commute.appG ne np) (((flat c1.ops).map (renOp π)).map toSOp) s =
+        Wire.runSeq (Commute.appG ne np) ((flat c2.ops).map toSOp) s := by
+  have key : ∃ π, RenamedBy π (flatC c1) (flatC c2) := by
+    rcases h with h | h
+    · obtain ⟨π, hπ⟩ := iso_sound c1 c2 h1 h2 h
+      exact ⟨π, hπ.flat⟩
+    · obtain ⟨π, hπ, _⟩ := iso_normalised_sound c1 c2 h1 h2 h
+      exact ⟨π, hπ⟩
+  obtain ⟨π, hπ⟩ := key
+  refine ⟨π, hπ, fun ne np s => ?_⟩
+  exact (hπ.swapEquiv (flat_opOK _ _ (wellFormed_opOK c1 h1)) (flat_opOK _ _ (wellFormed_opOK c2 h2))).same_stab_state ne np s
+
+/-- **`remove_redundant_circuits` with the repaired comparison keeps every distinct circuit** (the second half of the
+    property, for the repaired function): the result is a sub-list of the input, and every circuit that is dropped is —
+    in its executed operations — a renaming, register by register, of a circuit that is kept -/
+theorem dedup_sound (l : List Circuit) (hl : ∀ c ∈ l, WellFormed c) :
+    (removeRedundant2 l).Sublist l ∧
+    ∀ x ∈ l, x ∈ removeRedundant2 l ∨ ∃ k ∈ removeRedundant2 l, ∃ π, RenamedBy π (flatC k) (flatC x) :=
+  removeRedundant2_sound l (fun c hc => wellFormed_opOK c (hl c hc))
+
 /-! ## Non-vacuity -/
 
 /-- H e0; CNOT e0→p0; W[H,P] p0; measure-and-reset e0→p0; identity -/
@@ -187,5 +333,21 @@ example : isoCheck demoG demoG idMap = true := by decide +kernel
 example : nodupNd (demoG.nodes.map (·.1)) = true ∧ ∀ n ∈ demoG.nodes.map (·.1), (demoG.opOf n).isSome = true := by decide +kernel
 example : UniqueOut demoG := by unfold UniqueOut; decide +kernel
 example : ∀ n ∈ demoG.nodes.map (·.1), (applyMap idMap n).getD n = n := by decide +kernel
+
+/-- the hypotheses of §4 are met by real circuits: the witnesses and the demo circuits are well formed, and the repaired
+    comparison accepts a renamed copy (registers e0 ↔ e1 exchanged) of the D22 circuit and the re-bracketed demo pair after
+    normalisation -/
+def d22A' : Circuit := ⟨2, 0, 0, [.ctrl .CNOT e0 e1, .one .H e1, .ctrl .CNOT e0 e1, .ctrl .CNOT e0 e1]⟩
+
+example : WellFormed witA ∧ WellFormed witB ∧ WellFormed d22A ∧ WellFormed d22B ∧ WellFormed demo ∧ WellFormed demo' ∧ WellFormed d22A' := by
+  decide +kernel
+example : circuitIsIsomorphic2 d22A d22A' = .ok true ∧ circuitIsIsomorphic2 d22A d22A = .ok true ∧
+    isoNormalised2 demo demo' = .ok true := by decide +kernel
+example : removeRedundant2 [demo, demo', witA, witB, d22A, d22A'] = [demo, witA, witB, d22A] := by decide +kernel
+
+/-- `Rep0` / `Rep` are met by a real DAG: the demo circuit's -/
+example : ∃ g body, MG.build demo = .ok g ∧ Rep0 g (wiresN 1 1 1) body ∧ Rep g.addControlTarget2 (wiresN 1 1 1) body := by
+  obtain ⟨g, hb, ⟨body, r, _⟩⟩ := dag_is_a_family_of_register_paths demo (by decide +kernel)
+  exact ⟨g, body, hb, r, r.addControlTarget2⟩
 
 end Graphiq.C15
